@@ -72,10 +72,12 @@
     ) -> (res: (u32, u32))
         requires
             self.wf(), div.wf(), div.pv() == p as int, r < p, dinv < p,
+            p < 0x1000_0000, inv.wf(p as int),
             dinv != 0 ==> cong(dinv as int * self.dv(), 1, p as int),
             // D inside the factor base: C < 0 (debug-asserted by the code) and p does not divide B (Inverter::invert
             // asserts a non-zero argument)
-            dinv == 0 ==> -(pow_w(4) as int) / 2 < self.cv() < 0 && self.bv() % (p as int) != 0,
+            dinv == 0 ==> -(pow_w(4) as int) / 2 < self.cv() < 0 && self.bv() % (p as int) != 0
+                && coprime((self.bv() % (p as int)) as nat, p as nat),
         ensures
             res.0 < p, res.1 < p,
             // generic case: at x = offset + root, 2 A x + B (B odd) resp. A x + B/2 (B even) is the square root ±r
